@@ -17,6 +17,8 @@ import common as K  # noqa: E402
 import obsmodel  # noqa: E402
 
 sys.path.insert(0, os.path.join(K.REPO, "src"))
+import logging  # noqa: E402
+logging.getLogger("cobra").setLevel(logging.ERROR)   # 'Ignoring reaction ... since it already exists' is expected
 
 HEADER = """From Coq Require Import ZArith QArith Qcanon List Bool.
 From Cobra.Core Require Import Model Check.
